@@ -44,6 +44,16 @@ def main():
                 if msg:
                     print(msg); bad = 1
         sys.exit(bad)
+    if kind == 'tan_alpha':
+        from . import C11d
+        f = C11d.native(C11d.native_lib())
+        tb, ma, mz = [float(v) for v in sys.argv[2:5]]
+        got = f(tb, ma, mz)
+        print('tan_alpha(tb=%r, MA0=%r, MZ=%r) = %r' % (tb, ma, mz, got))
+        msg = C11d.chord_probe(f, tb, mz, report_jump=True)
+        if msg:
+            print('along MA0 = MZ(1+d):', msg)
+        sys.exit(1 if (msg or not got < 0) else 0)
     if kind == 'dxlog':
         import mpmath
         af, bf = float(sys.argv[2]), float(sys.argv[3])
